@@ -5,6 +5,7 @@
 -/
 import CM.Proofs.StackLemmas
 import CM.Proofs.BagDeps
+import CM.Proofs.DetectOpt
 import CM.Proofs.BagTerm
 namespace CM.C18
 open CM
@@ -204,4 +205,37 @@ example :
     acyclicB (exBag []).edges = true ∧
     ((exBag []).term 5 ⟨3, "c"⟩).map BTerm.missingNames = some ["m"] := by
   refine ⟨by decide +kernel, by decide +kernel, by decide +kernel, by decide +kernel, by decide +kernel⟩
+/-! ## Node level: which nodes of a layer are optional (`detect_optionals`, containers/reversible.py) -/
+
+/-- **What `detect_optionals` marks**, for every container with single incoming edges and no cycle: the outputs carrying an
+`@optional` name; the inputs that have dependants among the visited nodes, all of which are such optional outputs; the backward
+inputs and outputs.  This is the per-layer half of "every upstream input it cannot reach is needed only by optional fields of
+the layer that asks for it": the other half is `node_validate_ok`. -/
+theorem node_detect_optionals (optNames : List String) (inputs outputs backIn backOut : List BNode) (es : List BEdge)
+    (opt : List BNode) (hs : SingleIncoming es) (hac : acyclicB es = true)
+    (h : detectOptionals optNames inputs outputs backIn backOut es = some opt) (n : BNode) :
+    n ∈ opt ↔ (∃ x ∈ optNames, byName outputs x = some n) ∨
+      (n ∈ inputs ∧ (∃ u, UserOf es outputs u n) ∧ ∀ u, UserOf es outputs u n → ∃ x ∈ optNames, byName outputs x = some u) ∨
+      n ∈ backIn ∨ n ∈ backOut :=
+  detectOptionals_spec optNames inputs outputs backIn backOut es opt hs hac h n
+
+/-- an input with a dependant that is not an optional output - a private parameter, a required field, the pass-through of an
+inherited name - is required: if it cannot be reached the pipeline fails loudly -/
+theorem node_required_user_blocks (optNames : List String) (inputs outputs backIn backOut : List BNode) (es : List BEdge)
+    (opt : List BNode) (hs : SingleIncoming es) (hac : acyclicB es = true)
+    (h : detectOptionals optNames inputs outputs backIn backOut es = some opt) (i u : BNode)
+    (hu : UserOf es outputs u i) (hno : ∀ x ∈ optNames, byName outputs x ≠ some u)
+    (hi : ∀ x ∈ optNames, byName outputs x ≠ some i) (hbi : i ∉ backIn) (hbo : i ∉ backOut) : i ∉ opt :=
+  required_user_blocks optNames inputs outputs backIn backOut es opt hs hac h i u hu hno hi hbi hbo
+
+/-- non-vacuity (a test): `x(a)` optional and `y(b, _p)`, `_p(a)` required: `a` is used by the parameter, `b` by the required
+field: only the output `x` is optional; with `_p` reading nothing and `y` optional as well, `a` and `b` become optional -/
+example :
+    let a : BNode := ⟨0, "a"⟩; let b : BNode := ⟨1, "b"⟩; let p : BNode := ⟨2, "_p"⟩; let x : BNode := ⟨3, "x"⟩; let y : BNode := ⟨4, "y"⟩
+    let es (pa : List BNode) : List BEdge := [{ edge := .function "p" [] [], ins := pa, out := p },
+      { edge := .function "x" [] [], ins := [a], out := x }, { edge := .function "y" [] [], ins := [b, p], out := y }]
+    (detectOptionals ["x"] [a, b] [x, y] [] [] (es [a])).map (·.map (·.name)) = some ["x"] ∧
+    (detectOptionals ["x", "y"] [a, b] [x, y] [] [] (es [])).map (·.map (·.name)) = some ["x", "y", "a", "b"] := by
+  decide +kernel
+
 end CM.C18
